@@ -80,6 +80,9 @@ def b_spelling(vals):
 
 
 def _b_free(rng):
+    if rng.random() < 0.3:
+        # (float elements in every spelling the f grammar allows)
+        return "f," + ",".join(_float_free(rng) for _ in range(rng.randint(1, 4)))
     st = rng.choice("cCsSiI")
     lo, hi = {"c": (-128, 127), "C": (0, 255), "s": (-32768, 32767), "S": (0, 65535),
               "i": (-2**31, 2**31 - 1), "I": (0, 2**32 - 1)}[st]
